@@ -363,6 +363,13 @@ func (rs *Store) Query(req abci.RequestQuery) abci.ResponseQuery {
 		return errors.ErrUnknownRequest(msg).QueryResult()
 	}
 
+	// only committed heights are answered: a substore can hold versions above the last commit of the multistore
+	// (abandoned by a rollback, or saved by a commit that was interrupted before its commit info was written)
+	if req.Height > rs.lastCommitID.Version {
+		msg := fmt.Sprintf("height %d is above the last committed height %d", req.Height, rs.lastCommitID.Version)
+		return errors.ErrUnknownRequest(msg).QueryResult()
+	}
+
 	// trim the path and make the query
 	req.Path = subpath
 	res := queryable.Query(req)
